@@ -24,6 +24,13 @@ CLAIMED["C15"] = dict(
     technique="stateless model checking: deviation-bounded exhaustive DFS over schedules of the instrumented implementation + exhaustive cancellation/fault-position enumeration",
     design_ref="§3.2-3.4, §4 C15")
 
+CLAIMED["C01"] = dict(
+    category="model_checking", engine="vsched",
+    text="The real check engine (instrumented by tools/vinstr, run under the cooperative scheduler) is compared with an independent reference semantics (h/refsem: least fixpoint stratified over the SCCs of the atom dependency graph) on (A) every configuration with <=2 leaves over includes/traverse(recursive)/permits x every query-connected tuple set of <=3 tuples over 2 objects incl. subject sets, empty relations, duplicates x 3 queries x row orders, default mode, and typed OPL-rendered configurations in strict mode; (B) the same engine over the real SQL persister/traverser with row order forced through shard_id, cross-checked call by call count and answer against the in-memory store used for exploration; (C) ALL schedules up to deviation bound 1 (thorough 2) of ~700 scenarios that force the visited-set, cycle and short-circuit mechanisms - every outcome must equal the reference, so the answer is schedule independent within the bound. Cases the engine itself reports as cut by depth/width are excluded (C02).",
+    note="Reference semantics written from the docs (strict mode from config.schema.json); bounds: <=2 leaves, <=3 tuples (thorough: 5 leaf kinds, all row permutations, deeper), deviation bound; violations that disappear under the counterfactual build with path-local visited sets are attributed to recorded finding KF-C01-1.",
+    technique="bounded-exhaustive input enumeration + deviation-bounded stateless schedule exploration of the instrumented implementation against a reference model",
+    design_ref="§4 C01")
+
 NOT_YET = "check not built yet in this revision (work in progress; see DESIGN.md §4 for the planned model-checking design)"
 
 
